@@ -325,7 +325,7 @@ func runC05(r *Run, p *Prog) {
 		}
 		// skipper: reset on newline outside a comment; join with '\n'; write the comment slice
 		sk := m.skipper
-		nReset, nWrite := 0, 0
+		nReset, nWrite, nJoin := 0, 0, 0
 		for _, b := range sk.Blocks {
 			for _, in := range b.Instrs {
 				c, ok := in.(*ssa.Call)
@@ -348,6 +348,7 @@ func runC05(r *Run, p *Prog) {
 					okSl := isSl && strings.HasSuffix(strip(T.T(sl.X)), "."+m.inputField()) && sl.Low != nil && sl.High != nil
 					r.Ob("K4", shortName(sk), "the comment text recorded is input[start:position]", c.Pos(), okSl, "what is appended to the pending comment is not a slice of the input")
 				case "WriteByte":
+					nJoin++
 					k, isK := c.Call.Args[1].(*ssa.Const)
 					okJ := isK && k.Int64() == '\n'
 					okG := false
@@ -362,6 +363,10 @@ func runC05(r *Run, p *Prog) {
 		}
 		if nReset != 1 || nWrite != 1 {
 			r.Ob("K4", shortName(sk), "the skipper resets the pending comment once and records comment text once", sk.Pos(), false, fmt.Sprintf("resets: %d, writes: %d", nReset, nWrite))
+		}
+		if nJoin == 0 {
+			// (unless the lines are joined some other way: the text recorded includes the line end, or a separator string)
+			r.Ob("K4", shortName(sk), "consecutive comment lines are joined by a newline", sk.Pos(), false, "nothing separates the lines of a comment block: a documentation block of several lines becomes one run-together line")
 		}
 	})
 	// ---- K5
@@ -768,6 +773,203 @@ func runC05(r *Run, p *Prog) {
 		}
 		r.Stat("K13_read_sites", n)
 		r.Floor("K13", 5)
+	})
+	r.Guard("K14", func() {
+		// a type reader that finds nothing of a type at the cursor leaves the cursor where it was: at its first read, a
+		// byte that leads straight to the failure return is stepped back. (The optional type of an error is detected by
+		// "nothing consumed"; a reader that eats the byte it could not use turns `error Name` at the end of a line into
+		// "invalid error type".)
+		n := 0
+		for _, f := range p.FuncsOf(pkgIDL) {
+			if len(f.Blocks) == 0 || !a.isCursorMethod(f) || f.Signature.Results().Len() != 1 {
+				continue
+			}
+			if pt, ok := f.Signature.Results().At(0).Type().(*types.Pointer); !ok || !types.Identical(pt.Elem(), m.typeT) {
+				continue
+			}
+			sites := a.readSites(f)
+			if len(sites) == 0 {
+				continue
+			}
+			s0 := sites[0]
+			// the first read on every path: its block dominates every other read
+			first := true
+			for _, s := range sites[1:] {
+				if !(s0.Block() == s.Block() || s0.Block().Dominates(s.Block())) {
+					first = false
+				}
+			}
+			// ... and the first thing the function does with the cursor
+			if s0.Block() != f.Blocks[0] {
+				first = false
+			}
+			for _, in := range f.Blocks[0].Instrs {
+				if in == ssa.Instruction(s0) {
+					break
+				}
+				if c, ok := in.(*ssa.Call); ok && c.Call.StaticCallee() != nil && a.isCursorMethod(c.Call.StaticCallee()) {
+					first = false
+				}
+			}
+			if !first {
+				continue
+			}
+			n++
+			out := a.analyseRead(s0)
+			var bad []string
+			for c := -1; c <= 255; c++ {
+				if !out.Consumed.has(c) || out.Pushed.has(c) {
+					continue
+				}
+				for _, ev := range out.Next[c] {
+					if ret, isRet := ev.(*ssa.Return); isRet && len(ret.Results) == 1 {
+						if k, isK := ret.Results[0].(*ssa.Const); isK && k.IsNil() {
+							if c < 0 {
+								bad = append(bad, "end of input")
+							} else {
+								bad = append(bad, fmt.Sprintf("%q", rune(c)))
+							}
+						}
+					}
+				}
+			}
+			// (a particular byte that is consumed before the reader gives up - the '?' of `??` - is a malformed type, not an
+			// absent one: only the default behaviour is judged)
+			if len(bad) < 128 {
+				bad = nil
+			}
+			if len(bad) > 6 {
+				bad = append(bad[:6], "…")
+			}
+			r.Ob("K14", shortName(f), "a byte that is not the start of what this reader reads is left in the input", s0.Pos(), len(bad) == 0,
+				"at its first read the reader consumes "+strings.Join(bad, " ")+" and then reports that there is nothing to read: the caller, which tells `no type here` from `malformed type` by whether anything was consumed, rejects a description that merely has no type at this point")
+		}
+		r.Stat("K14_type_readers", n)
+	})
+	r.Guard("K15", func() {
+		// layout between the tokens of a member: in the readers that skip layout at all (at least two calls of the full
+		// skipper: the member readers, the field list, the member loop) every token read and every single-byte read is
+		// directly preceded - on every path - by a layout skip; exempt are the first read of the function and a byte
+		// read that directly follows another byte read (a two-byte operator). A call of any other cursor method is
+		// opaque (it skips what it needs itself).
+		isLine := map[*ssa.Function]bool{}
+		for _, ls := range m.lineSkipper {
+			isLine[origFn(ls)] = true
+		}
+		for _, g := range p.FuncsOf(pkgIDL) {
+			rs := g.Signature.Results()
+			if !a.isCursorMethod(g) || len(g.Blocks) == 0 || m.tokens[g] != nil || origFn(g) == origFn(m.skipper) || rs.Len() > 1 {
+				continue
+			}
+			if rs.Len() == 1 {
+				if bt, ok := rs.At(0).Type().Underlying().(*types.Basic); !ok || bt.Kind() != types.Bool {
+					continue
+				}
+			}
+			if sites := a.readSites(g); len(sites) > 0 {
+				if self := a.analyseRead(sites[0]).selfLoopSet(); !self.empty() && !self.has('\n') {
+					isLine[g] = true
+				}
+			}
+		}
+		kind := func(in ssa.Instruction) byte {
+			c, ok := in.(*ssa.Call)
+			if !ok || c.Call.StaticCallee() == nil {
+				return 0
+			}
+			g := origFn(c.Call.StaticCallee())
+			switch {
+			case g == origFn(m.skipper), isLine[g]:
+				return 'S'
+			case g == origFn(a.next):
+				return 'N'
+			case a.back != nil && g == origFn(a.back):
+				return 0 // stepping back does not read
+			case m.tokens[g] != nil, m.typeReaders[g]:
+				return 'R'
+			case a.isCursorMethod(g):
+				return 'C'
+			}
+			return 0
+		}
+		n := 0
+		for _, f := range p.FuncsOf(pkgIDL) {
+			if len(f.Blocks) == 0 || !a.isCursorMethod(f) || origFn(f) == origFn(m.skipper) || isLine[origFn(f)] {
+				continue
+			}
+			skips := 0
+			for _, b := range f.Blocks {
+				for _, in := range b.Instrs {
+					if c, ok := in.(*ssa.Call); ok && c.Call.StaticCallee() != nil && origFn(c.Call.StaticCallee()) == origFn(m.skipper) {
+						skips++
+					}
+				}
+			}
+			if skips < 2 {
+				continue
+			}
+			// forward may-analysis of the last cursor event
+			in := map[*ssa.BasicBlock]map[byte]bool{f.Blocks[0]: {'0': true}}
+			work := []*ssa.BasicBlock{f.Blocks[0]}
+			bad := map[ssa.Instruction]string{}
+			for len(work) > 0 {
+				b := work[0]
+				work = work[1:]
+				cur := map[byte]bool{}
+				for k := range in[b] {
+					cur[k] = true
+				}
+				for _, ins := range b.Instrs {
+					k := kind(ins)
+					if k == 0 {
+						continue
+					}
+					if k == 'R' || k == 'N' {
+						for prev := range cur {
+							okPrev := prev == 'S' || prev == '0' || prev == 'C' || (k == 'N' && prev == 'N')
+							if !okPrev {
+								bad[ins] = ifs(prev == 'R', "a token read", "a byte read")
+							}
+						}
+					}
+					cur = map[byte]bool{k: true}
+				}
+				for _, s := range b.Succs {
+					old := in[s]
+					changed := old == nil
+					nv := map[byte]bool{}
+					for k := range old {
+						nv[k] = true
+					}
+					for k := range cur {
+						if !nv[k] {
+							nv[k] = true
+							changed = true
+						}
+					}
+					if changed {
+						in[s] = nv
+						work = append(work, s)
+					}
+				}
+			}
+			n++
+			if len(bad) == 0 {
+				r.Ob("K15", shortName(f), "layout is skipped in front of every token of this reader", f.Pos(), true, "")
+				continue
+			}
+			var bl []ssa.Instruction
+			for ins := range bad {
+				bl = append(bl, ins)
+			}
+			sort.Slice(bl, func(i, j int) bool { return bl[i].Pos() < bl[j].Pos() })
+			for i, ins := range bl {
+				r.Ob("K15", shortName(f), fmt.Sprintf("layout is skipped in front of every token of this reader (#%d)", i+1), ins.Pos(), false,
+					"this read directly follows "+bad[ins]+" on some path, without a layout skip in between, in a reader that skips layout between its other tokens: the description is accepted only when nothing stands between these two tokens")
+			}
+		}
+		r.Stat("K15_readers", n)
+		r.Floor("K15", 1)
 	})
 	r.Guard("K12", func() {
 		// no rejection for a name that is not (yet) in the tree: a search of a list or table of the tree under
